@@ -93,7 +93,8 @@ def jStore15 (dt : Data) (α : Rat) (n : Nat) (s : Store) : Json :=
     ("labels", Json.arr (s.labels.map fun e => Json.arr #[jNat e.1, jInt15 e.2]).toArray),
     ("last", jLast15 s.last),
     ("pOne", jRat (pOneC dt α s)), ("pMarg", jRat (pMargC dt α s)),
-    ("complete", Json.bool (dataCompleteB n s)), ("wfd", Json.bool (wfdB dt s))]
+    ("complete", Json.bool (dataCompleteB n s)), ("wfd", Json.bool (wfdB dt s)),
+    ("shared", Json.bool (wfShB s && fullB s && cacheOKB dt s && alignedB s))]
 
 def optStore15 (dt : Data) (α : Rat) (n : Nat) : Option Store → Json
   | none => Json.null
@@ -120,6 +121,7 @@ def handleC15 : Handler := fun op j =>
     let rtReal := fromDict dt dReal
     pure (Json.mkObj [
       ("wfd", Json.bool (wfdB dt s)),
+      ("shared", Json.bool (wfShB s && fullB s && cacheOKB dt s && alignedB s)),
       ("dict", jDict15 d),
       ("orig", jStore15 dt α n s),
       ("rt_ok", Json.bool rt.isSome),
